@@ -213,10 +213,13 @@ pub trait DSet: Sized {
         queue.push_back((1, img0));
 
         while let Some((d, e)) = queue.pop_front() {
+            if (0..self.dim()).any(|i| self.m(i, i + 1, d) != other.m(i, i + 1, e)) {
+                return None;
+            }
             for i in 0..=self.dim() {
                 if let Some(di) = self.op(i, d) {
                     if let Some(ei) = other.op(i, e) {
-                        if m[di] == 0 && self.degrees_match(d, e) {
+                        if m[di] == 0 {
                             m[di] = ei;
                             queue.push_back((di, ei));
                         } else if m[di] != ei {
